@@ -144,7 +144,11 @@ func (v *Verifier) notifyTRC(ctx context.Context, id cppki.TRCID) error {
 }
 
 func (v *Verifier) getChains(ctx context.Context, q ChainQuery) ([][]*x509.Certificate, error) {
-	key := fmt.Sprintf("chain-%s-%x", q.IA, q.SubjectKeyID)
+	// The validity is part of the query: chains that cover one validity period
+	// must not be served for another one.
+	key := fmt.Sprintf("chain-%s-%x-%d.%09d-%d.%09d", q.IA, q.SubjectKeyID,
+		q.Validity.NotBefore.Unix(), q.Validity.NotBefore.Nanosecond(),
+		q.Validity.NotAfter.Unix(), q.Validity.NotAfter.Nanosecond())
 
 	cachedChains, ok := v.cacheGet(key, "chains")
 	if ok {
